@@ -24,7 +24,7 @@ import subprocess
 import vlib
 from vlib import Spec
 from C08 import (BOOL, CH, EN, FIX, INT, NULL, REF, RNG, SEQ, SET, STR, UTF8, C, Gen, M, T, line_of, render_module,
-                 templates, text_of_line)
+                 templates, text_of_line, nonidem_module)
 
 # --------------------------------------------------------------------------------------------- Rust lexical facts
 # The Rust Reference, "Keywords" (2021 edition)
@@ -218,6 +218,18 @@ def special_modules():
     # `pub g: Option<u8>`: the declared type is the inner one, fd1f3f1)
     S.append(("named_number_on_optional", mod_text("V21", "  Ta ::= SEQUENCE { a BOOLEAN, g INTEGER { c(3) } (0..9) OPTIONAL, h INTEGER { neg(-7), big-one(70000) } OPTIONAL }")))
     S.append(("named_number_on_optional_set", mod_text("V22", "  Ta ::= SET { g INTEGER { low(-5), high-v(5) } (-5..5) OPTIONAL, ..., k INTEGER { m(1) } (0..65535) OPTIONAL }")))
+    # names on which rust_variant_name / rust_struct_or_enum_name is not idempotent (a-b -> AB -> Ab; found with op 3410), at every
+    # position where a name travels through the generated text and is read back by the macro or referenced again: a name
+    # mangled a second time (Plan::Ab) no longer exists -> rustc
+    S.append(("nonidem_all_positions", render_module(nonidem_module("N1"), with_desc=False)))
+    S.append(("nonidem_all_positions_b", render_module(nonidem_module("N2", plan="Plan-B-C", route="A-B", rec="X-Y-Z", pick="Mode-S", ta="Item-A-B"), with_desc=False)))
+    S.append(("nonidem_imported", mod_text("N3Lib", "  Route-T-A ::= ENUMERATED { a-b, x-y-z, plan-b-c }\n  Rec-A-B ::= SEQUENCE { is-a-b BOOLEAN, mode-s-t Route-T-A DEFAULT x-y-z }\n"
+                                                    "  Pick-X-Y ::= CHOICE { a-b Rec-A-B, item-a-b Route-T-A }") + "\0" +
+              mod_text("N3", "  IMPORTS Route-T-A, Rec-A-B, Pick-X-Y FROM N3Lib;\n  S ::= SEQUENCE { q Route-T-A DEFAULT a-b, r Rec-A-B, l SEQUENCE OF Route-T-A, ..., e Route-T-A DEFAULT plan-b-c, c Pick-X-Y OPTIONAL }\n"
+                             "  X ::= SET { a-b Route-T-A DEFAULT x-y-z, x-y-z SET OF Rec-A-B }\n  T-A ::= CHOICE { a-b Route-T-A, plan-b-c Pick-X-Y, ..., x-y-z Rec-A-B }")))
+    S.append(("nonidem_constants", mod_text("N4", "  a-b INTEGER ::= 5\n  x-y-z INTEGER ::= 3\n  is-a-b BOOLEAN ::= TRUE\n  T-A ::= INTEGER { a-b(1), plan-b-c(2) } (0..a-b)\n"
+                                                  "  Rec-A-B ::= SEQUENCE { a-b INTEGER { x-y-z(0), item-a-b(5) } (0..a-b) DEFAULT x-y-z, mode-s-t BOOLEAN DEFAULT is-a-b, ..., a-b1 INTEGER { a-b(3) } (0..9) }\n"
+                                                  "  X-Y-Z ::= BIT STRING { a-b(0), x-y-z(1) } (SIZE(8))")))
     S.append(("value_default_on_choice_alt", mod_text("V15", "  Ta ::= SEQUENCE { fa Tb DEFAULT x : 5 }\n  Tb ::= CHOICE { x INTEGER }")))
     return S
 
@@ -518,7 +530,8 @@ class C09(Spec):
     theorems = ["C09_field_idents_legal", "C09_keywords_complete", "C09_keywords_complete_identifier", "C09_keywords_escaped", "C09_variant_idents_legal",
                 "C09_type_idents_legal", "C09_refuted_variant_Self", "C09_mangle_collision_refuted",
                 "C09_no_collision", "C09_field_name_no_trailing_underscore", "C09_consts_typed_partial", "C09_const_declared_type",
-                "C09_const_on_extension_addition_fixed", "C09_refuted_const_negative_on_unsigned"]
+                "C09_const_on_extension_addition_fixed", "C09_refuted_const_negative_on_unsigned",
+                "C09_variant_mangling_not_idempotent", "C09_variant_mangling_fixed_points", "C09_variant_mangling_idempotent_iff"]
     builds = [("default", "dev")]
     level_text = ("Partial by design (DESIGN.md section 8): 'rustc accepts' is checked by running the real rustc on the generated files "
                   "of a zoo of modules (harness/h_e2e, cargo check), the logic core (identifiers legal, keywords escaped, no collisions, "
@@ -674,6 +687,8 @@ class C09(Spec):
         ctx["coverage_extra"] = {"rustc_stage": {"modules": len(zoo), "accepted_by_front_end": len(accepted), "rejected_by_front_end": rejected,
                                                  "front_end_or_generator_panic": panicked, "rejected_by_rustc": n_bad, "classes": classes,
                                                  "from_cache": cached, "cache_key": key}}
+        nonidem = [lab for lab in labels if lab.startswith("special:nonidem")]
+        ctx["coverage_extra"]["non_idempotent_names"] = {"zoo_modules": len(nonidem), "labels": nonidem}
 
 
 def choice_cycle(text):
